@@ -124,14 +124,33 @@ def run(ctx):
                  "PID 0 is no longer answered from the process list on POSIX")
     # Linux: Tgid == pid distinguishes processes from threads
     lpe = repo.func("_pslinux", "pid_exists")
-    rets = [norm_stmt(s.value).replace(" ", "") for s in ast.walk(lpe.node)
-            if isinstance(s, ast.Return)]
-    if ("tgid==pid" in rets or "pid==tgid" in rets) and "pidinpids()" in rets and "False" in rets:
+    from ..core.absint import Interp, alternatives, pretty
+    from ..core.forms import canon
+    from .c06 import collect
+    It = Interp(repo, A)
+    lp0 = lpe.node.args.args[0].arg if lpe.node.args.args else "pid"
+    tt = canon(It.call_function(lpe, [("param", lp0)]))
+    alts = alternatives(tt)
+    has_false = ("const", False) in alts
+    has_list = any(a[0] == "cmp" and a[1] == "in" and a[2] == ("param", lp0)
+                   and "listdir" in pretty(a[3]) for a in alts)
+    tg = False
+    for w in collect(tt, lambda x: x and x[0] == "when"):
+        keyok = any(pol is True and c and c[0] == "call" and c[1] == "startswith"
+                    and c[-1] == ("const", b"Tgid:") for c, pol in w[1])
+        v = w[2]
+        if keyok and v[0] == "cmp" and v[1] == "==" and ("param", lp0) in (v[2], v[3]):
+            other = v[3] if v[2] == ("param", lp0) else v[2]
+            cols = [x for x in collect(other, lambda y: y and y[0] == "idx" and y[2] == 1)
+                    if "/status" in pretty(x)]
+            if cols and other[0] == "call" and other[1] == "int":
+                tg = True
+    if tg and has_list and has_false:
         ctx.ok("C04.R2", "linux-pid_exists:tgid", sample="Tgid == pid; fallback pid in pids()")
     else:
         ctx.fail("C04.R2", "linux-pid_exists:tgid", lpe.file, lpe.node.lineno, lpe.qual,
-                 f"Linux pid_exists returns {rets}: thread IDs must answer False "
-                 f"(Tgid != pid) and the fallback is the listing")
+                 f"Linux pid_exists answers `{pretty(tt)[:160]}`: thread IDs must answer False "
+                 f"(int(Tgid column) == pid) and the fallback is the listing")
 
     # ------------------------------------------------------------------- R3
     ctx.rule("C04.R3", "cache discipline of process_iter(): works on a copy; PIDs "
@@ -157,79 +176,124 @@ def run(ctx):
                  f"process_iter() no longer works on a copy of {gname}")
         return _finish(ctx)
     wname = work[0]
-    # (b) gone pids removed
-    rm = repo.func("psutil", "process_iter.remove", required=False)
-    rm_ok = rm is not None and any(
-        isinstance(c.func, ast.Attribute) and c.func.attr == "pop"
-        and dotted(c.func.value) == wname for c in calls_in(rm.node))
-    gone = [k for k, v in asg.items() if len(v) == 1 and isinstance(v[0], ast.Assign)
-            and isinstance(v[0].value, ast.BinOp) and isinstance(v[0].value.op, ast.Sub)]
-    gone_loop = [s for s in ast.walk(pi.node) if isinstance(s, ast.For)
-                 and dotted(s.iter) in gone
-                 and any(dotted(c.func) == "remove" for c in calls_in(s))]
-    # the difference must be cached - listed
-    def _is_cached_minus_listed(name):
-        v = asg[name][0].value
-        l, r = dotted(v.left), dotted(v.right)
-        ls = asg.get(l, [None])[0]
-        rs = asg.get(r, [None])[0]
-        lt = norm_stmt(deref(pi.node, ls.value)).replace(" ", "") if ls is not None else ""
-        rt = norm_stmt(deref(pi.node, rs.value)).replace(" ", "") if rs is not None else ""
-        return wname in lt and "pids()" in rt
-    gl = [s for s in gone_loop if _is_cached_minus_listed(dotted(s.iter))]
+    # effects on the working map, written inline or through a local closure
+    closures = {f.name: f for f in repo.all_funcs("psutil") if f.parent is pi}
+
+    def _direct_evict(c, names):
+        """pid expression evicted by call c from the map called one of `names`."""
+        if isinstance(c.func, ast.Attribute) and c.func.attr == "pop" \
+                and dotted(c.func.value) in names and c.args:
+            return c.args[0]
+        return None
+
+    def evictions(node):
+        """[(node, evicted-pid expression)] inside `node`."""
+        out = []
+        for c in calls_in(node):
+            e = _direct_evict(c, {wname})
+            if e is not None:
+                out.append((c, e))
+            elif isinstance(c.func, ast.Name) and c.func.id in closures and c.args:
+                cl = closures[c.func.id]
+                ps = [a.arg for a in cl.node.args.args]
+                for c2 in calls_in(cl.node):
+                    e2 = _direct_evict(c2, {wname})
+                    if e2 is not None and dotted(e2) in ps:
+                        out.append((c, c.args[ps.index(dotted(e2))]))
+        for d in ast.walk(node):
+            if isinstance(d, ast.Delete):
+                for t in d.targets:
+                    if isinstance(t, ast.Subscript) and dotted(t.value) == wname:
+                        out.append((d, t.slice))
+        return out
+
+    def insertions(node):
+        """[(node, variable receiving the new Process)] for `W[k] = Process(pid)`
+        effects inside `node` (inline or through a closure)."""
+        out = []
+        stores = [st for st in ast.walk(node) if isinstance(st, ast.Assign)
+                  and isinstance(st.targets[0], ast.Subscript)
+                  and dotted(st.targets[0].value) == wname]
+        for st in stores:
+            v = deref(pi.node if node is not None else node, st.value)
+            src = [a for a in ast.walk(node) if isinstance(a, ast.Assign)
+                   and dotted(a.targets[0]) == dotted(st.value)
+                   and isinstance(a.value, ast.Call) and dotted(a.value.func) == "Process"]
+            if (isinstance(v, ast.Call) and dotted(v.func) == "Process") or src:
+                out.append((st, dotted(st.value)))
+        for st in ast.walk(node):
+            if isinstance(st, ast.Assign) and isinstance(st.value, ast.Call) \
+                    and isinstance(st.value.func, ast.Name) and st.value.func.id in closures:
+                cl = closures[st.value.func.id]
+                inner = insertions(cl.node)
+                rets = [r for r in ast.walk(cl.node) if isinstance(r, ast.Return)]
+                if inner and rets and all(dotted(r.value) == inner[0][1] for r in rets):
+                    out.append((st, dotted(st.targets[0])))
+        return out
     yn = [n for n in cfg.nodes if n.kind == "stmt" and isinstance(n.stmt, ast.Expr)
           and isinstance(n.stmt.value, ast.Yield)]
     ctx.require(yn, "process_iter: yield vanished")
-    if rm_ok and gl and all(cfg.dominates(h, y) for s in gl for h in cfg.nodes_of(s) for y in yn):
-        ctx.ok("C04.R3", "drop-gone", sample="for pid in (cached - listed): remove(pid)")
+    # (b) gone pids removed: for X in (cached keys - listed pids): evict X
+    gl = []
+    for lp in [s_ for s_ in ast.walk(pi.node) if isinstance(s_, ast.For)]:
+        it = deref(pi.node, lp.iter)
+        if not (isinstance(it, ast.BinOp) and isinstance(it.op, ast.Sub)):
+            continue
+        lt = norm_stmt(it.left).replace(" ", "")
+        rt = norm_stmt(it.right).replace(" ", "")
+        if wname in lt and "pids()" in rt and wname not in rt \
+                and any(dotted(e) == dotted(lp.target) for _, e in evictions(lp)):
+            gl.append(lp)
+    if gl and all(cfg.dominates(h, y) for s_ in gl for h in cfg.nodes_of(s_) for y in yn):
+        ctx.ok("C04.R3", "drop-gone", sample="for pid in (cached - listed): evict pid")
     else:
         ctx.fail("C04.R3", "drop-gone", pi.file, pi.node.lineno, pi.qual,
                  "entries of PIDs that are no longer listed are not dropped before "
                  "iterating (a dead process would be yielded again)")
-    # (c) reused drained
-    dr = [s for s in ast.walk(pi.node) if isinstance(s, ast.While)
-          and dotted(s.test) == "_pids_reused"]
+    # (c) reused drained: while _pids_reused: evict(_pids_reused.pop())
+    dr = [s_ for s_ in ast.walk(pi.node) if isinstance(s_, ast.While)
+          and dotted(s_.test) == "_pids_reused"]
     dok = False
-    for s in dr:
-        pops = [c for c in calls_in(s) if isinstance(c.func, ast.Attribute)
-                and c.func.attr == "pop" and dotted(c.func.value) == "_pids_reused"]
-        rms = [c for c in calls_in(s) if dotted(c.func) == "remove"]
-        if pops and rms:
-            # removed pid is the popped one
-            pv = [k for k, v in asg.items() if any(getattr(x, "value", None) is pops[0] for x in v)]
-            if pv and dotted(rms[0].args[0]) == pv[0] and \
-                    all(cfg.dominates(h, y) for h in cfg.nodes_of(s) for y in yn):
+    for s_ in dr:
+        for c, e in evictions(s_):
+            ed = deref(pi.node, e)
+            popped = isinstance(ed, ast.Call) and isinstance(ed.func, ast.Attribute) \
+                and ed.func.attr == "pop" and dotted(ed.func.value) == "_pids_reused"
+            if not popped and dotted(e):
+                # multi-use temporary: pid = _pids_reused.pop(); ...; evict(pid)
+                popped = any(isinstance(a, ast.Assign) and dotted(a.targets[0]) == dotted(e)
+                             and isinstance(a.value, ast.Call)
+                             and isinstance(a.value.func, ast.Attribute)
+                             and a.value.func.attr == "pop"
+                             and dotted(a.value.func.value) == "_pids_reused"
+                             for a in ast.walk(s_))
+            if popped and all(cfg.dominates(h, y) for h in cfg.nodes_of(s_) for y in yn):
                 dok = True
     if dok:
-        ctx.ok("C04.R3", "drain-reused", sample="while _pids_reused: remove(_pids_reused.pop())")
+        ctx.ok("C04.R3", "drain-reused", sample="while _pids_reused: evict(_pids_reused.pop())")
     else:
         ctx.fail("C04.R3", "drain-reused", pi.file, pi.node.lineno, pi.qual,
                  "PIDs found recycled by is_running() are no longer evicted: the stale "
                  "object would keep being yielded for the new process")
-    # (d) new -> Process(pid)
-    add = repo.func("psutil", "process_iter.add", required=False)
-    aok = add is not None and any(dotted(c.func) == "Process" for c in calls_in(add.node)) \
-        and any(isinstance(s, ast.Assign) and isinstance(s.targets[0], ast.Subscript)
-                and dotted(s.targets[0].value) == wname for s in ast.walk(add.node))
+    # (d) new -> Process(pid) stored in the map, under `proc is None`
     new_ok = False
-    for n in cfg.nodes:
-        if n.kind == "stmt" and isinstance(n.stmt, ast.Assign) \
-                and isinstance(n.stmt.value, ast.Call) and dotted(n.stmt.value.func) == "add":
-            if any(f == ("isnone", dotted(n.stmt.targets[0]), True) for f in facts(cfg, n)):
+    for st, var in insertions(pi.node):
+        for n in cfg.nodes_of(st):
+            if any(f[0] == "isnone" and f[2] is True for f in facts(cfg, n)):
                 new_ok = True
-    if aok and new_ok:
-        ctx.ok("C04.R3", "add-new", sample="proc is None -> proc = add(pid) -> Process(pid) stored")
+    if new_ok:
+        ctx.ok("C04.R3", "add-new", sample="proc is None -> Process(pid) created and stored")
     else:
         ctx.fail("C04.R3", "add-new", pi.file, pi.node.lineno, pi.qual,
                  "new PIDs are not turned into cached Process objects")
     # (e) NSP handler removes
     ytry = enclosing_trys(pi.node, yn[0].stmt)
     nsp = [h for t in ytry for h in t.handlers if handler_catches(h, ["NoSuchProcess"])]
-    eok = any(any(dotted(c.func) == "remove" for b in h.body for c in calls_in(b))
-              and not any(isinstance(s, (ast.Raise, ast.Return, ast.Break))
-                          for b in h.body for s in ast.walk(b)) for h in nsp)
+    eok = any(any(evictions(b) for b in h.body)
+              and not any(isinstance(s_, (ast.Raise, ast.Return, ast.Break))
+                          for b in h.body for s_ in ast.walk(b)) for h in nsp)
     if eok:
-        ctx.ok("C04.R3", "nsp-removes", sample="except NoSuchProcess: remove(pid)")
+        ctx.ok("C04.R3", "nsp-removes", sample="except NoSuchProcess: evict pid")
     else:
         ctx.fail("C04.R3", "nsp-removes", pi.file, pi.node.lineno, pi.qual,
                  "a process vanishing while visited is not removed from the cache / "
